@@ -109,11 +109,14 @@ class Port:
 class Harness(Elaboratable):
     """DUT + one single-call transaction per exposed method (+ optional extra logic)."""
 
-    def __init__(self, dut, methods: dict[str, Method], extra: Callable | None = None):
+    def __init__(self, dut, methods: dict[str, Method], extra: Callable | None = None, shadows=()):
         self.dut = dut
         self.ports = {n: Port(n, m) for n, m in methods.items()}
+        # shadow callers: a SECOND harness transaction calling the same method with the same argument; an
+        # exclusive method must never be executed for both callers in one cycle
+        self.shadow = {n: Port(n + "_sh", methods[n]) for n in shadows if n in methods}
         self.extra = extra
-        for p in self.ports.values():
+        for p in list(self.ports.values()) + list(self.shadow.values()):
             p.en = Signal(name=f"h_{p.name}_en")
             p.din = Signal(p.method.layout_in, name=f"h_{p.name}_din")
             p.dout = Signal(p.method.layout_out, name=f"h_{p.name}_dout")
@@ -122,7 +125,7 @@ class Harness(Elaboratable):
         m = TModule()
         if self.dut is not None:
             m.submodules.dut = self.dut
-        for p in self.ports.values():
+        for p in list(self.ports.values()) + list(self.shadow.values()):
             p.trans = Transaction(name=f"h_{p.name}")
             with p.trans.body(m, ready=p.en):
                 m.d.top_comb += p.dout.eq(p.method(m, p.din))
@@ -149,7 +152,7 @@ class CompSim:
     build(cfg) -> (dut, {spec method name: Method}[, pub signals dict[, extra(m) callback]])
     """
 
-    def __init__(self, build: Callable, cfg, scheduler=None, dm_setup: Callable | None = None):
+    def __init__(self, build: Callable, cfg, scheduler=None, dm_setup: Callable | None = None, shadows=()):
         self.dm = DependencyManager()
         if dm_setup is not None:
             dm_setup(self.dm)
@@ -158,7 +161,7 @@ class CompSim:
             dut, methods = built[0], built[1]
             self.pub = built[2] if len(built) > 2 and built[2] else {}
             extra = built[3] if len(built) > 3 else None
-            self.h = Harness(dut, methods, extra)
+            self.h = Harness(dut, methods, extra, shadows)
             tm = TransactionManager(scheduler) if scheduler is not None else TransactionManager()
             self.top = _Top(TransactronContextElaboratable(self.h, dependency_manager=self.dm, transaction_manager=tm))
             self.sim = Simulator(self.top)
@@ -177,6 +180,9 @@ class CompSim:
         sample_sigs = []
         for p in ports.values():
             sample_sigs += [p.trans.run, p.trans.runnable, p.dout.as_value()]
+        shadow = self.h.shadow
+        for p in shadow.values():
+            sample_sigs += [p.trans.run, p.dout.as_value()]
         pub_names = list(self.pub)
         for n in pub_names:
             sample_sigs.append(Value.cast(self.pub[n]) if not isinstance(self.pub[n], Value) else self.pub[n])
@@ -208,6 +214,9 @@ class CompSim:
                         raw = encode(p.method.layout_in, expand(p.method.layout_in, a))
                     ctx.set(p.din.as_value(), raw)
                     args[name] = a
+                    if name in shadow:
+                        ctx.set(shadow[name].en, 1 if (req and name in step.get("_shadow", ())) else 0)
+                        ctx.set(shadow[name].din.as_value(), raw)
                 for sname, v in step.get("_in", {}).items():
                     ctx.set(plain[sname], v)
                 vals = await ctx.tick().sample(*sample_sigs)
@@ -224,6 +233,17 @@ class CompSim:
                         "arg": args[name],
                         "out": simplify(p.method.layout_out, decode(p.method.layout_out, int(dout))),
                     }
+                    line[name]["both"] = 0
+                for name, p in shadow.items():
+                    srun, sdout = int(vals[k]), vals[k + 1]
+                    k += 2
+                    if srun:
+                        line[name]["both"] = line[name]["done"]
+                        if not line[name]["done"]:
+                            line[name]["done"] = 1
+                            line[name]["out"] = simplify(p.method.layout_out, decode(p.method.layout_out, int(sdout)))
+                    if name in step and name in step.get("_shadow", ()):
+                        line[name]["sh"] = 1
                 if pub_names:
                     line["pub"] = {n: int(vals[k + j]) for j, n in enumerate(pub_names)}
                 if "_in" in step:
